@@ -9,7 +9,7 @@ import vlib
 from props import fam_pdb as F
 
 
-MANIFEST = {'technique': 'Coq proof (hybrid-36 round trips for the whole ranges, line-buffer independence from earlier lines) + exact differential check of codecs/record parser + round-trip oracles on gemmi', 'text': 'Theorems: read_serial(encode n) = n for all 0 <= n <= 43770015 and read_seq_id(write_seq_id n icode) = (n, icode) for all -999 <= n <= 1223055 (general proofs, tight bounds shown by Examples); charge and altloc round trips; C06_no_stale_bytes: after next_line the whole 122-byte buffer, length and stream rest depend on the stream alone, hence every record parse is independent of earlier longer lines (the snapshot behaviour is refuted with the SEQRES witness); invariant of the line buffer; padding/CR-LF variants give the same buffer up to blank<->terminator (_partial). Model of codecs, copy_line and the SEQRES/DBREF/MODRES/HELIX/SHEET/CONECT handlers compared exactly with gemmi on generated line sequences; oracles on gemmi: write->read->write byte-identical + field equality on generated structures x options, padding/strip/CR-LF invariance on generated and repository files, every record kind cut at every length under ASan.', 'note': 'Trusted: Coq kernel; extraction; harness. No axioms. Binary<->decimal conversion (fast_float, stb), ATOM/ANISOU/CRYST1 numerics, REMARK metadata and polyheur are oracle-only. Excluded from generation (documented upstream behaviour): bytes >= 0x80 in over-long lines, CISPEP angles below -99.99, ANISOU with zero trace.'}
+MANIFEST = {'technique': 'Coq proof (ATOM/HETATM and CRYST1 records: text fields round-trip for all fitting values, layout derived from the format strings of the source by a printf interpreter; hybrid-36 round trips for the whole ranges, line-buffer independence from earlier lines) + exact differential check of codecs/record parser + round-trip oracles on gemmi', 'text': 'ATOM / HETATM RECORD (Pdb/AtomLine.v, compared with gemmi one record at a time): for EVERY atom whose fields fit their columns and whatever follows the line in the buffer, record name, serial, atom name (with the alignment rule of padded_name), altloc, residue name, chain, residue number, insertion code, segment, element columns and charge are read back exactly and the numeric columns byte for byte (C06_atom_record_roundtrip). TIE TO THE SOURCE TEXT: the printf format strings of the ATOM/HETATM and CRYST1 records are copied out of src/to_pdb.cpp on every run (gen/extract_atom_fmt.py) and a printf interpreter in Coq shows that the line of the model IS what those formats produce (C06_atom_line_is_source_format): an edited width, precision or blank in the source changes the statement the kernel checks. CRYST1: 80 columns, space-group name and Z read back exactly (C06_cryst1_roundtrip). A lower-case altloc is written as its capital (refuted witness). Theorems: read_serial(encode n) = n for all 0 <= n <= 43770015 and read_seq_id(write_seq_id n icode) = (n, icode) for all -999 <= n <= 1223055 (general proofs, tight bounds shown by Examples); charge and altloc round trips; C06_no_stale_bytes: after next_line the whole 122-byte buffer, length and stream rest depend on the stream alone, hence every record parse is independent of earlier longer lines (the snapshot behaviour is refuted with the SEQRES witness); invariant of the line buffer; padding/CR-LF variants give the same buffer up to blank<->terminator (_partial). Model of codecs, copy_line and the SEQRES/DBREF/MODRES/HELIX/SHEET/CONECT handlers compared exactly with gemmi on generated line sequences; oracles on gemmi: write->read->write byte-identical + field equality on generated structures x options, padding/strip/CR-LF invariance on generated and repository files, every record kind cut at every length under ASan.', 'note': 'Trusted: Coq kernel; extraction; harness. No axioms. Binary<->decimal conversion (fast_float, stb), ATOM/ANISOU/CRYST1 numerics, REMARK metadata and polyheur are oracle-only. Excluded from generation (documented upstream behaviour): bytes >= 0x80 in over-long lines, CISPEP angles below -99.99, ANISOU with zero trace.'}
 
 def oracle_lines(rng, quick):
     lines = []
@@ -33,7 +33,7 @@ def oracle_lines(rng, quick):
             lines.append('o_sid\t-999 1223055 %d' % ic)
     # generated structures x write options x read options
     n = 700 if quick else 20000
-    wms = [0, 0, 0, 1, 2, 4, 8, 16, 32, 64, 128, 256, 512, 1024, 2048, 4096, 4096 + 128, 4096 + 512]
+    wms = [0, 0, 0, 1, 2, 4, 8, 16, 32, 64, 128, 256, 512, 1024, 2048, 2048, 2048, 2048 + 512, 4096, 4096 + 128, 4096 + 512]
     for i in range(n):
         seed = rng.randrange(1, 2 ** 40)
         wm = rng.choice(wms + [rng.randrange(8192)])
@@ -46,6 +46,38 @@ def oracle_lines(rng, quick):
         lines.append('o_file\t%s 0' % path)
         for _ in range(3 if quick else 40):
             lines.append('o_file\t%s %d' % (path, rng.randrange(1, 2 ** 40)))
+    return lines
+
+
+def atomline_cases(rng, n):
+    """ATOM / HETATM records one at a time (model Pdb/AtomLine.v): mostly fields that fit their columns - at both ends of
+    every range (hybrid-36 serials and residue numbers, 4-character names, the padded_name alignment rule, two-character
+    chains, segments with an inner blank, charges -9..9) - and some that do not (names and residue names longer than
+    their columns are truncated by the writer; the reader model must still agree)."""
+    def hx(t):
+        return t.encode().hex() if t else '-'
+    names = ['CA', 'N', 'C', 'O', 'CB', "C1'", "HO5'", "O5'", 'OXT', 'H', 'HA', '1HB', 'HB1', 'D', 'DA', 'FE', 'CL', 'ZN', 'MG',
+             'O1P', 'N9', 'C4A', 'SE', 'X', 'Q', 'UNK', 'CA1', 'HH11', 'A', 'C\'', 'N"', 'ABCDE', '']
+    els = ['C', 'N', 'O', 'H', 'D', 'Ca', 'Fe', 'Cl', 'Zn', 'Mg', 'Se', 'S', 'P', 'X', 'Na', 'K', 'U', 'He', 'Hg']
+    resn = ['ALA', 'GLY', 'HOH', 'A', 'DA', 'UNL', '0PR', 'MSE', 'NA', 'ZN', 'ABCD', 'ABCDE', 'a1', '']
+    chains = ['A', 'B', 'AA', 'a', '1', 'Z9', 'x', 'Ax']
+    segs = ['', '', '', 'SEG1', 'A B', 'S', 'AB', 'S 1']
+    serials = [0, 1, 9, 99999, 100000, 100001, 43770015, 1000, 12345, 2436111, 2436112]
+    seqs = [-999, -1, 0, 1, 9, 10, 999, 9999, 10000, 10001, 1223055, 476655, 476656, 100]
+    lines = []
+    for _ in range(n):
+        name = rng.choice(names)
+        el = rng.choice(els)
+        if rng.random() < 0.6 and name:      # a compatible element most of the time
+            cand = [e for e in els if name.lstrip('0123456789').upper().startswith(e.upper())]
+            el = rng.choice(cand) if cand else el
+        lines.append('atomline\t%d %d %s %s %d %s %s %d %d %s %d %s %s %s %s %s' % (
+            rng.randint(0, 1), rng.choice(serials + [rng.randrange(0, 43770016)]), hx(name), el,
+            rng.choice([0, 0, 0, 65, 66, 49, 97]), hx(rng.choice(resn)), hx(rng.choice(chains)),
+            rng.choice(seqs + [rng.randrange(-999, 1223056)]), rng.choice([32, 32, 32, 65, 90, 49]), hx(rng.choice(segs)),
+            rng.choice([0, 0, 0, 1, -1, 2, -2, 9, -9, 5]),
+            '%.3f' % rng.uniform(-999, 9999), '%.4f' % rng.uniform(-99, 99), rng.choice(['0', '-0.0004', '123.4565', '-999.9994', '9999.999']),
+            rng.choice(['1', '0.5', '0', '0.335', '1.00']), rng.choice(['0', '20.55', '999.99', '1234.5', '0.005', '15.125'])))
     return lines
 
 
@@ -91,9 +123,12 @@ def run(chk):
                         'coordinates/occupancies/B factors: binary<->decimal conversion (fast_float, stb_sprintf) is not modelled; '
                         'covered by the write->read->write oracle on generated structures only',
                         'metadata REMARK parsing and entity/sub-chain heuristics (polyheur.cpp) are outside the model; exercised by the oracle only']
+    F.gen_tables()
+    chk.trusted.append('translator gen/extract_atom_fmt.py (copies the printf format strings of the ATOM/HETATM and CRYST1 records out of src/to_pdb.cpp)')
     proved = chk.prove()
     h, d = F.harness(), F.driver()
     lines = F.codec_lines(rng, 400 if quick else 20000)
+    lines += atomline_cases(rng, 1500 if quick else 60000)
     lines += F.copyline_lines(rng, 300 if quick else 10000)
     lines += record_lines(rng, quick)
     lines += oracle_lines(rng, quick)
